@@ -75,17 +75,23 @@ Theorem C19_paths_main : forall g a i ds e d,
   snd (dcmstack_main g a i) = ORun ds e -> In d ds -> NoDup (map fo_path (do_files d)).
 Proof. exact dcmstack_paths_distinct. Qed.
 
-(** NOT true across source directories: with --dest-dir the names of different directories may
-    coincide and one output overwrites the other (names are unique per source directory only).
-    Witness: two directories each holding series 8 / "b c", one destination. *)
-Theorem C19_paths_global_refuted :
-  exists g a i ds, snd (dcmstack_main g a i) = ORun ds None /\
-    starts_with_slash (a_output_ext a) = false /\
-    ~ NoDup (concat (map (fun d => map fo_path (do_files d)) ds)).
-Proof.
-  exists ex_g, ex_args3, ex_inputs3. eexists. split; [vm_compute; reflexivity|]. split; [reflexivity|].
-  intros H. inversion H as [|x l Hnotin Hnd]. subst. apply Hnotin. left. reflexivity.
-Qed.
+(** over the WHOLE invocation (finding F18 repaired): with --dest-dir all output names, of all source
+    directories, are pairwise distinct ... *)
+Theorem C19_names_global : forall g a i ds e,
+  truthy (a_dest_dir a) <> None ->
+  snd (dcmstack_main g a i) = ORun ds e ->
+  NoDup (concat (map (fun d => map fo_name (do_files d)) ds)).
+Proof. exact dcmstack_names_global. Qed.
+
+(** ... and in both modes all output PATHS are pairwise distinct, provided the extension contains no
+    '/' and -- when there is no common destination -- the source directories are different
+    directories ([dir_prefix d] is  d  with exactly one trailing '/', or empty) *)
+Theorem C19_paths_global : forall g a i ds e,
+  slash_free (a_output_ext a) = true ->
+  (truthy (a_dest_dir a) = None -> NoDup (map dir_prefix (a_src_dirs a))) ->
+  snd (dcmstack_main g a i) = ORun ds e ->
+  NoDup (concat (map (fun d => map fo_path (do_files d)) ds)).
+Proof. exact dcmstack_paths_global. Qed.
 
 Theorem C19_one_per_group : forall g a i ds d,
   snd (dcmstack_main g a i) = ORun ds None -> In d ds ->
@@ -269,6 +275,12 @@ Example C19_seq_example :
   | _ => False
   end.
 Proof. vm_compute. repeat split. Qed.
+
+(** two source directories holding the same series and one destination: the second name gets a suffix *)
+Example C19_dest_dir_example :
+  all_paths (snd (dcmstack_main ex_g ex_args3 ex_inputs3)) = [L "out/008-b_c.nii.gz"%string; L "out/008-b_c-000.nii.gz"%string] /\
+  truthy (a_dest_dir ex_args3) <> None /\ slash_free (a_output_ext ex_args3) = true.
+Proof. vm_compute. repeat split. discriminate. Qed.
 
 (** inject: three values into ('global','slices') of a 3-slice image are stored; two are refused;
     an existing key is refused without --force-overwrite and moved with it *)
